@@ -21,9 +21,15 @@ LANGS = ["Lb", "la", "Lc", "ld", "E", "lB", "Ab", "Mx", "my", "Na", "ob", "Pq", 
 CONCEPTS = ["hand", "Foot", "eye", "nose", "Sun", "foot", "Eye"]
 CONS = ["p", "t", "k", "b", "d", "g", "m", "n", "s", "z", "l", "r", "h", "j", "w", "tʰ", "ts", "ʃ", "ŋ", "x"]
 VOWS = ["a", "e", "i", "o", "u", "aː", "ə"]
+# the same sound spelt precomposed and as base letter + combining mark: DIFFERENT segments for every comparison
+# the code makes (stored strings are compared; nothing normalises the cells of a dictionary source)
+TWINS = [("\u00e3", "a\u0303"), ("\u00e9", "e\u0301"), ("\u00f6", "o\u0308")]
+MARKS = ["\u0303", "\u0301", "\u0308"]          # segments that are only a combining mark
+VOWS += [x for pair in TWINS for x in pair]
 GRID = [F(k, 8) for k in range(0, 9)]
 SGRID = [F(0), F(1, 32), F(1, 16), F(3, 32), F(1, 8), F(1, 4), F(3, 8), F(1, 2), F(5, 8), F(3, 4), F(7, 8), F(1)]   # stub values
-SAME_CLASS = [("t", "d"), ("p", "b"), ("k", "g"), ("s", "z"), ("a", "e"), ("o", "u"), ("i", "e"), ("m", "n"), ("a", "ə")]
+SAME_CLASS = [("t", "d"), ("p", "b"), ("k", "g"), ("s", "z"), ("a", "e"), ("o", "u"), ("i", "e"), ("m", "n"), ("a", "ə")] \
+    + TWINS + TWINS + [("a", "\u00e3"), ("e", "e\u0301"), ("o", "\u00f6")]
 T_TURCHIN = [F(0), F(3, 10), F(1, 2), F(99, 100), F(1), F(3, 2), F(-1, 10), F(45, 100)]
 T_EDIT = [F(0), F(1, 4), F(1, 3), F(1, 2), F(2, 3), F(3, 4), F(1), F(3, 10), F(45, 100), F(55, 100), F(2, 5), F(3, 5),
           F(1, 5), F(-1, 4), F(5, 4)]
@@ -83,6 +89,9 @@ def gen_case(rng, methods=METHODS, max_lang=5, max_conc=5):
         rows.append([i, l, c, w])
     method = rng.choice(methods)
     linkage = rng.choice(LINKAGES)
+    if method in ("edit-dist", "turchin", "stub") and rng.random() < 0.06:
+        r = rng.choice(rows)                                    # a segment that is only a combining mark
+        r[3].insert(rng.randrange(len(r[3]) + 1), rng.choice(MARKS))   # (LexStat may reject the wordlist)
 
     def thr():
         c = rng.random()
@@ -243,7 +252,15 @@ def run_impl(case):
     D = {0: ["doculect", "concept", "tokens"]}
     for i, l, c, w in case["rows"]:
         D[i] = [l, c, list(w)]
-    lex = LexStat(D)
+    try:
+        lex = LexStat(D)
+    except ValueError:
+        # LexStat rejects wordlists with too many unrecognised characters: an excluded input, but only
+        # for the cases into which the generator put a bare combining mark
+        if any(tok in MARKS for _, _, _, w in case["rows"] for tok in w):
+            return {"rejected": True, "exact": True, "oracle_ok": True, "nconcepts": 0, "sizes": [],
+                    "t": ["0", "0"], "out": [], "out2": [], "calls": [], "dist": [], "classes": {}, "vowels": []}
+        raise
     scorer_failed = False
     if method == "lexstat":
         random.seed(case["seed"])
@@ -396,6 +413,8 @@ def render(case, res):
     lr, cr = _ranks(case)
     wl = L.lst(["(mkrow %s %s %s)" % (L.nat(i), L.nat(cr[c]), L.nat(lr[l])) for i, l, c, _ in case["rows"]])
     method = case["method"]
+    if res.get("rejected"):                      # nothing was computed: an empty case
+        wl, method = "[]", "stub"
     if method == "turchin":
         ws = L.lst([L.pair(L.nat(i), L.natlist(res["classes"][str(i)])) for i, _, _, _ in case["rows"]])
         dist = "(DTurchin %s %s %s)" % (L.natlist(res["vowels"]), L.nat(ord("H")), ws)
@@ -438,6 +457,8 @@ BITS = {0: "correspondence: the model's id column differs from the implementatio
 def nontrivial(case, res):
     """Non-trivial: some concept with >= 3 words is split into more than one but fewer than
     its number of words cognate sets at one of the thresholds."""
+    if res.get("rejected"):
+        return False
     conc = {i: c for i, _, c, _ in case["rows"]}
     for o in ([o for _, o in res["calls"]] if "calls" in case else (res["out"], res["out2"])):
         per = {}
@@ -517,6 +538,8 @@ def shrink(case):
 
 def classify(case, res):
     n = len(case["rows"])
+    if res.get("rejected"):
+        return ["method=" + case["method"], "rejected-by-LexStat(bare combining mark)"]
     out = ["method=" + case["method"], "linkage=" + case["linkage"],
            "rows<=5" if n <= 5 else "rows<=12" if n <= 12 else "rows>12",
            "concepts=%d" % res["nconcepts"],
@@ -531,6 +554,11 @@ def classify(case, res):
         out.append("t1=0(int)" if case.get("int_zero") else "t1=0.0")
     if len({l for _, l, _, _ in case["rows"]}) >= 10:
         out.append("languages>=10")
+    toks = {tok for _, _, _, w in case["rows"] for tok in w}
+    if any(a in toks and b in toks for a, b in TWINS):
+        out.append("has-normalisation-twins")
+    if any(m in toks for m in MARKS):
+        out.append("has-bare-combining-mark")
     if not res.get("oracle_ok", True):
         out.append("oracle-contract-violated")
     if any(s >= 2 for s in res["sizes"]):
